@@ -83,6 +83,14 @@ Definition file_read (f : bytes) (off : Z) (len : nat) : result :=
     let n := Nat.min len (List.length f - o) in
     ROk (slice f o n) (n <? len)%nat.
 
+(* What ReadAt hands to its caller when loadRange fails: (0, err).  If the store's error IS io.EOF (code_bare_eof), the
+   caller cannot tell this from a read that reached the end of the file: it is the observation (n = 0, io.EOF). *)
+Definition read_error (e : rerr) : result :=
+  match e with
+  | XStore c => if N.eqb c code_bare_eof then ROk [] true else RErr e
+  | _ => RErr e
+  end.
+
 Inductive phase :=
 | PNeed (todo : list nat)                     (* loadRange's second loop: about to call loadChunk(head todo) *)
 | PFetch (i : nat) (todo : list nat)          (* in loadChunk(i): mutex i held, done bit re-checked, before GetChunk *)
@@ -171,7 +179,7 @@ Section Loader.
       | Some (PFetch i todo), rq :: _ =>                         (* l.s.GetChunk + c.Data() *)
           let s' := mkstate (s_done s) (s_file s) (S (s_calls s)) (set_nth (s_mutex s) i false) (s_saved s)
                             (s_threads s) (s_log s) (s_crashed s) (s_fetched s) in
-          let fail e := Some (finish s' k th (match rq with RqRead _ _ => RErr e | _ => RDone end)) in
+          let fail e := Some (finish s' k th (match rq with RqRead _ _ => read_error e | _ => RDone end)) in
           match store (s_calls s) (r_id (nth i idx row0)) with
           | SFail c => fail (XStore c)
           | SData d =>
